@@ -7,7 +7,8 @@ package iterable
 // deleted and the sum of the iterator reference counts. It exists only in
 // builds with the `verif` tag (model-based verification harness, property C11).
 func VerifListStats[K comparable, V any](m *Map[K, V]) (nodes, deleted, refSum int) {
-	for p := m.head; p != nil; p = p.next {
+	// the walk is bounded: a corrupted (cyclic) list must not hang the harness
+	for p := m.head; p != nil && nodes < 1<<20; p = p.next {
 		nodes++
 		if p.state == rlDeleted {
 			deleted++
